@@ -48,10 +48,12 @@ def run(ck, tier):
     ck.rule("R-C18-first", "the first word-like token is capitalised whatever it is: the word loop compares the ordinal of the word-like token (the enumerate() counter over iter_word_likes()) with 0, and the true edge of that test reaches the upper-casing store before the next iteration on every path")
     ck.rule("R-C18-caseonly", "every store output[i] = v has v = to_ascii_uppercase/lowercase of output[i] at the same index expression, or an element of the dictionary's canonical capitalisation of that same word under the is_proper_noun guard")
     ck.not_decided += ["idempotence (depends on should_capitalize_token's values)", "in-bounds-ness of correct_caps[idx]"]
+    ck.rule("R-C18-parser", "same length: make_title_case returns the characters between the first and the last token, so a caller of make_title_case_str / _chars must hand it a parser whose tokens cover the whole text - the plain-English parser (R-C02-tile); a Markdown or other masking parser leaves markup, code spans and outer blanks outside the tokens and the result is cut short")
     ck.rule("R-C18-idem", "premise of idempotence: what make_title_case decides for a word depends on the word's letters regardless of their case (dictionary look-ups by word id, lower-cased comparisons), on its kind and on its position - never on the case the letters currently have; with the three case-only operations (upper-case the first letter, lower-case the word, copy the canonical spelling) that makes a second pass decide the same and change nothing. A decision that reads the current case is reported as undecided, not refuted: it can still be idempotent")
     p = facts.load()
     byk = fns_by_key(p)
     _idem(ck, p)
+    _callers(ck, p)
     fs = byk.get("harper_core::title_case::make_title_case")
     if not ck.anchor("R-C18-length", "title_case::make_title_case", fs):
         return
@@ -268,3 +270,30 @@ def _idem(ck, p):
         ck.undecided(rule, key, "", "a decision reads the current letter case: %s - a second pass sees other cases than the first and may decide differently (for example a word typed pH: not all-caps on the first pass, all-caps PH after it); idempotence is not decided" % "; ".join(reads[:4]))
     else:
         ck.proved(rule, key, "", "%d functions of the module: no case predicate on the text and no case-sensitive comparison of its characters" % n)
+
+
+def _callers(ck, p):
+    rule = "R-C18-parser"
+    n = 0
+    for f in sorted(p.fns.values(), key=lambda f: f.name):
+        if "::tests::" in f.name or f.name.startswith("harper_core::title_case::tests"):
+            continue
+        for bi, t in f.calls():
+            inst = norm(inst_of(t))
+            if inst not in ("harper_core::title_case::make_title_case_str", "harper_core::title_case::make_title_case_chars"):
+                continue
+            if f.name.startswith("harper_core::title_case::") and "make_title_case_chars" in inst:
+                continue            # make_title_case_str forwarding its own generic parser
+            n += 1
+            ck.saw(f)
+            tys = [f.ty(x)["s"] for x in t["f"].get("targs", []) if isinstance(x, int)]
+            parser = [x for x in tys if "parsers::" in x or "Parser" in x or x.endswith("PlainEnglish")] or tys
+            key = "%s:parser" % keyname(p, f)
+            txt = " ".join(tys)
+            if "PlainEnglish" in txt:
+                ck.proved(rule, key, f.loc(t["ln"]), "title-casing with the plain-English parser, whose tokens tile the text")
+            elif re.search(r"Markdown|Mask|Typst|JsDoc|JavaDoc|Go\b|Unit\b|CommentParser|HtmlParser|LiterateHaskell|GitCommit|IsolateEnglish|CollapseIdentifiers", txt):
+                ck.refuted(rule, key, f.loc(t["ln"]), "title-casing with %s: its tokens do not cover the whole text (markup, code spans, link targets and outer blanks are no tokens), and make_title_case returns only the characters between the first and the last token - the result is shorter than the input" % (parser[:1] or tys))
+            else:
+                ck.undecided(rule, key, f.loc(t["ln"]), "parser type %s: whether its tokens cover the whole text is not decided" % tys)
+    ck.extra["title_case_callers"] = n
